@@ -28,6 +28,7 @@ configs = st.fixed_dictionaries({
     "TZ": st.sampled_from(["UTC", "Pacific/Kiritimati", "America/St_Johns", None]),
     "PYTHONUTF8": st.sampled_from(["0", "1", None]),
     "PYTHONIOENCODING": st.sampled_from(["utf-8", "ascii", "latin-1", "ascii:strict", None]),
+    "PYTHONWARNINGS": st.sampled_from([None, None, "error", "default"]),
     "cwd": st.sampled_from(["root", "scratch"]),
     "preimport": st.sampled_from(PREIMPORTS),
 })
@@ -41,8 +42,8 @@ def run_child(task, corpus, config, timeout=120):
         with open(cf, "w", encoding="utf-8") as f:
             f.write(tagjson.dumps(corpus))
         env = {k: v for k, v in os.environ.items()
-               if k not in ("PYTHONHASHSEED", "LC_ALL", "LANG", "TZ", "PYTHONUTF8", "PYTHONIOENCODING")}
-        for k in ("PYTHONHASHSEED", "LC_ALL", "TZ", "PYTHONUTF8", "PYTHONIOENCODING"):
+               if k not in ("PYTHONHASHSEED", "LC_ALL", "LANG", "TZ", "PYTHONUTF8", "PYTHONIOENCODING", "PYTHONWARNINGS")}
+        for k in ("PYTHONHASHSEED", "LC_ALL", "TZ", "PYTHONUTF8", "PYTHONIOENCODING", "PYTHONWARNINGS"):
             if config.get(k) is not None:
                 env[k] = config[k]
         env["PYTHONPATH"] = os.pathsep.join([REPO, ROOT])
